@@ -18,7 +18,7 @@ func init() {
 	extend("C03", ruleNoCopyFastPaths("C03.no-copy-fast-paths"))
 	extend("C05", ruleNoCopyFastPaths("C05.no-copy-fast-paths"))
 	extend("C15", ruleNoCopyFastPaths("C15.no-copy-fast-paths"))
-	extend("C14", ruleTruncateKeepsCursor("C14.truncate-keeps-cursor"))
+	extend("C14", ruleTruncateKeepsCursor("C14.truncate-keeps-cursor"), ruleTruncatePreservesContent("C14.truncate-preserves-content"))
 	extend("C18", ruleSigningTimeUnadjusted("C18.signing-time-unadjusted"))
 	extend("C03", ruleBlockSizeFitsRecord("C03.block-size-fits-record"))
 	extend("C12", ruleSanitiserPrefixOnly("C12.sanitiser-prefix-only"))
@@ -482,6 +482,33 @@ func ruleStructRebuildComplete(rule string) func(*Ctx) {
 				c.unresolved("struct-rebuild matcher failed its positive control")
 			}
 			c.ok(rule, nil, "no field-by-field rebuild", token.NoPos, false, "no configuration struct is rebuilt field by field (matcher verified on an embedded fixture)")
+		}
+	}
+}
+
+// ruleTruncatePreservesContent: File.Truncate(size) hands `size` to the buffer's Truncate; it never empties the
+// buffer first. Growing a file keeps its content and appends zeros - emptying and refilling with zeros destroys it.
+func ruleTruncatePreservesContent(rule string) func(*Ctx) {
+	return func(c *Ctx) {
+		c.floor(rule, 2, "buffer truncations inside (*File).Truncate")
+		f := c.fn("pkg/fs", "(*File).Truncate")
+		writeBuf := c.field("pkg/fs", "File", "writeBuf")
+		if f == nil || writeBuf == nil {
+			return
+		}
+		info := f.Pkg.TypesInfo
+		size := paramVar(f, "size")
+		n := 0
+		for _, cs := range f.calls {
+			se, ok := ast.Unparen(cs.Call.Fun).(*ast.SelectorExpr)
+			if !ok || se.Sel.Name != "Truncate" || selField(info, se.X) != writeBuf || len(cs.Call.Args) != 1 {
+				continue
+			}
+			n++
+			c.verdictIf(size != nil && objOfIdent(info, cs.Call.Args[0]) == types.Object(size), rule, f, fmt.Sprintf("buffer truncate#%d", n), cs.Call.Pos(), "the buffer is cut to the requested size", "File.Truncate cuts the buffer to "+exprString(cs.Call.Args[0])+" instead of the requested size: growing a file (Truncate to a larger size) empties it first and refills it with zeros, so the existing content is lost and the cursor moves")
+		}
+		if n < 2 {
+			c.unresolved("only %d buffer truncations found in (*File).Truncate", n)
 		}
 	}
 }
